@@ -112,7 +112,7 @@ class RegModel:
         self.writers = {bid: self.leaf.get(bid, [self.forward_call.get(bid)]) for bid in self.family}
         self.reach_writer = lm._closure(lambda bid: bid in self.family)
         self.reg_lockers = {b.id for b in prog.bodies
-                            if any(c.callee in LOCK_CALLS and guard_class(c.term['dest']['ty']) == 'REGISTRY' for c in b.live_calls)}
+                            if any(prog.is_lock_call(c) and guard_class(c.term['dest']['ty']) == 'REGISTRY' for c in b.live_calls)}
         self.reach_reg_lock = lm._closure(lambda bid: bid in self.reg_lockers)
         # once-only bodies: reachable only through the once-closure of the ONCE flag
         once_ids = {clo.id for (b, c, clo) in self.init_once}
@@ -168,7 +168,7 @@ def rule_winit(rm):
             for cu, calls in prog.closure_call_sites.items():
                 if any(cc.body is e and cc.bb == c.bb for cc in calls):
                     targets.append(cu)
-            touches = any(t in rm.reach_reg_lock for t in targets) or (c.callee in LOCK_CALLS)
+            touches = any(t in rm.reach_reg_lock for t in targets) or prog.is_lock_call(c)
             if not touches or c.ruid in rm.must_init:
                 continue
             n += 1
@@ -421,7 +421,19 @@ def rule_wdisp(rm, em):
             # handler call on the Some edge uses the context function
             hs = [h for h in em.handler_sites(b) if h.bb in region]
             ctxh = [h for h in hs if some_t and edge_dominates(b, some_t[0], some_t[1], h.bb)]
-            if not ctxh:
+            joined = False
+            if not ctxh and some_t:
+                # `let handler = match ctx.get_func(name) { Some(f) => f, None => registry.get(name)? }; handler(args)`:
+                # one call after the join; the callee is the context's function when it came over the Some edge and the
+                # registered one when it came over the None edge
+                for h in hs:
+                    os_ = list(trace_operand(b, h.args[0], through_calls=set(TRANSPARENT_CALLS)))
+                    from_ctx = [o for o in os_ if o.kind == 'callres' and o.data.bb == lk.bb]
+                    from_reg = [o for o in os_ if o.kind == 'callres' and any(o.data.bb == g.bb for g in globals_)]
+                    if os_ and len(from_ctx) + len(from_reg) == len(os_) and from_ctx and from_reg \
+                            and all(edge_dominates(b, none_t[0], none_t[1], o.data.bb) for o in from_reg):
+                        joined = True
+            if not ctxh and not joined:
                 problems.append('no handler call on the "context has the function" edge')
             for h in ctxh:
                 o = single_origin(trace_operand(b, h.args[0], through_calls=set(TRANSPARENT_CALLS)))
